@@ -18,6 +18,7 @@ EXPLANATION = (
     "only if include_unchanged or the change is not 'unchanged'; (5) in backup(), a returned change reaches the "
     "callback and a basis-only entry is reported as deleted; in copy_file 'added' needs no basis, 'unchanged' needs "
     "new_entry == basis_entry."
+    " Added: every basis-only entry reaches the callback (C18.5c)."
 )
 UNDECIDED = ["that both streams arrive in the same order for every tree (C11's undecided part)",
              "exactness of the reported set for every mutation set (run-time)"]
